@@ -263,17 +263,17 @@ def c19(tier, seed):
             if e.get("ev") == "Fault":
                 cls = f"fault:{e.get('kind')}:{e.get('site') if e.get('kind') == 'semantic' else ''}:{e.get('outcome')}"
             else:
-                cls = "roundtrip:" + ("panic" if "panic" in e else "mismatch")
+                cls = ("settings:" + str(e.get("field")) + ":" if e.get("ev") == "SettingsTrip" else "roundtrip:") + ("panic" if "panic" in e else "mismatch")
             groups.setdefault(cls, []).append(e)
         for cls, evs in groups.items():
             e = evs[0]
-            payload = {"kind": "json-replay" if e.get("ev") == "RoundTrip" else "events", "prop": "C19", "event": {k: e[k] for k in e if k != "pairs"}, "count": len(evs),
-                       "spec": "JsonIO.tla", "cfg": "JsonIO.cfg", "case": cases.get(e.get("run")) if e.get("ev") == "RoundTrip" else None}
+            payload = {"kind": "json-replay" if e.get("ev") in ("RoundTrip", "SettingsTrip") else "events", "prop": "C19", "event": {k: e[k] for k in e if k != "pairs"}, "count": len(evs),
+                       "spec": "JsonIO.tla", "cfg": "JsonIO.cfg", "case": cases.get(e.get("run")) if e.get("ev") == "RoundTrip" else ({"sweep": True} if e.get("ev") == "SettingsTrip" else None)}
             res.violation(("json-" + cls).replace(" ", "_").replace("/", "_")[:90], payload,
                           f"{len(evs)} events: {cls} {str(e.get('msg', e.get('panic', '')))[:160]}", key=cls.replace(" ", "_"))
     kinds = {}
     for e in lines:
-        k = e.get("kind", "roundtrip") if e["ev"] == "Fault" else "roundtrip"
+        k = e.get("kind", "roundtrip") if e["ev"] == "Fault" else ("settings_sweep" if e["ev"] == "SettingsTrip" else "roundtrip")
         kinds[k] = kinds.get(k, 0) + 1
     nontriv = len({(e.get("base"), e.get("kind"), e.get("site")) for e in lines if e["ev"] == "Fault" and e.get("json_ok")}) + meta["roundtrips"]
     res.coverage = {"evaluations": len(lines), "distinct_nontrivial": nontriv,
